@@ -90,7 +90,9 @@ def build_types(case):
         traits_api.provides(*[ts[p_] for p_ in protos])(ts[cls])
     # the fictitious modules exist, so that 'module.Name' strings can be resolved by import_symbol (lazy offers)
     for i, t in enumerate(ts):
-        if t.__module__ != "builtins":
+        if t.__module__ != "builtins" and not case.get("lazy"):
+            sys.modules.pop(t.__module__, None)       # classes given as objects: their module need not be importable
+        elif t.__module__ != "builtins":
             mod = sys.modules.get(t.__module__) or pytypes.ModuleType(t.__module__)
             for k in [k for k in vars(mod) if not k.startswith("__")]:
                 delattr(mod, k)
